@@ -324,6 +324,18 @@ impl Visitor<Diagnostic> for LibraryRenderer {
         Ok(())
     }
 
+    fn visit_enumerated_value(&mut self, node: &EnumeratedValue) -> Result<Self::Value, Diagnostic> {
+        match &node.type_name {
+            Some(type_name) => {
+                self.visit_type(type_name)?;
+                self.write("#");
+                self.write(node.value.original().as_str());
+                Ok(())
+            }
+            None => self.visit_id(&node.value),
+        }
+    }
+
     fn visit_enumerated_specification_values(
         &mut self,
         node: &EnumeratedSpecificationValues,
